@@ -128,10 +128,11 @@ class GeventWorker(AsyncWorker):
     def handle_request(self, listener_name, req, sock, addr):
         try:
             super().handle_request(listener_name, req, sock, addr)
-        except gevent.GreenletExit:
-            pass
-        except SystemExit:
-            pass
+        except (gevent.GreenletExit, SystemExit):
+            # killed in the middle of a request (graceful timeout, quit):
+            # the response may be half written, so the connection must not
+            # carry another one - leave the keep-alive loop quietly
+            raise StopIteration()
 
     def handle_quit(self, sig, frame):
         # Move this out of the signal handler so we can use
